@@ -172,7 +172,7 @@ type c39Run struct {
 	lossy    bool // observed: an untouched empty part is unreadable (store cannot represent it)
 }
 
-func sp(s string) *string {
+func c39sp(s string) *string {
 	if s == "" {
 		return nil
 	}
@@ -186,13 +186,13 @@ func (r *c39Run) apply(o c39Op) error {
 	id := o.b + "/" + o.k
 	switch o.op {
 	case "put":
-		_, err := st.PutObject(ctx, B(o.b), K(o.k), nil, bytes.NewReader(o.bodies[0]), nil, &storage.PutObjectOptions{StorageClass: sp(o.cls)})
+		_, err := st.PutObject(ctx, B(o.b), K(o.k), nil, bytes.NewReader(o.bodies[0]), nil, &storage.PutObjectOptions{StorageClass: c39sp(o.cls)})
 		if err == nil {
 			r.kinds[id] = [2]string{"single", "F"}
 		}
 		return err
 	case "mpu", "upc":
-		up, err := st.CreateMultipartUpload(ctx, B(o.b), K(o.k), nil, sp(o.ctype), &storage.CreateMultipartUploadOptions{StorageClass: sp(o.cls)})
+		up, err := st.CreateMultipartUpload(ctx, B(o.b), K(o.k), nil, c39sp(o.ctype), &storage.CreateMultipartUploadOptions{StorageClass: c39sp(o.cls)})
 		if err != nil {
 			return err
 		}
@@ -226,7 +226,7 @@ func (r *c39Run) apply(o c39Op) error {
 		}
 		return err
 	case "cp":
-		_, err := st.CopyObject(ctx, B(o.sb), K(o.sk), B(o.b), K(o.k), &storage.CopyObjectOptions{StorageClass: sp(o.cls)})
+		_, err := st.CopyObject(ctx, B(o.sb), K(o.sk), B(o.b), K(o.k), &storage.CopyObjectOptions{StorageClass: c39sp(o.cls)})
 		if err == nil {
 			r.kinds[id] = r.kinds[o.sb+"/"+o.sk]
 		}
@@ -388,7 +388,7 @@ func (r *c39Run) corrupt(p *c39Part, how string, rng *verifx.Rng) bool {
 	return true
 }
 
-func ckShape(p *string) string {
+func c39CkShape(p *string) string {
 	if p == nil || *p == "" {
 		return "-"
 	}
@@ -510,8 +510,8 @@ func (r *c39Run) run(sc c39Script, rng *verifx.Rng) {
 		}
 		e := o.ent
 		etag := e.ETag
-		rec := strings.Join([]string{ckShape(&etag), ckShape(e.ChecksumCRC32), ckShape(e.ChecksumCRC32C), ckShape(e.ChecksumCRC64NVME),
-			ckShape(e.ChecksumSHA1), ckShape(e.ChecksumSHA256)}, ":")
+		rec := strings.Join([]string{c39CkShape(&etag), c39CkShape(e.ChecksumCRC32), c39CkShape(e.ChecksumCRC32C), c39CkShape(e.ChecksumCRC64NVME),
+			c39CkShape(e.ChecksumSHA1), c39CkShape(e.ChecksumSHA256)}, ":")
 		oct := "~"
 		if e.ChecksumType != nil {
 			oct = map[string]string{"FULL_OBJECT": "F", "COMPOSITE": "C"}[*e.ChecksumType]
